@@ -12,9 +12,9 @@ import (
 // depend on the generator.
 type Case struct {
 	Prop    string   `json:"prop"`
-	Seed    uint64   `json:"seed"`           // run seed this case was generated from (provenance only)
-	Project *Project `json:"project"`        // file tree, root
-	Entry   string   `json:"entry"`          // "path": kit.NewJapi(root path); "mem": kit.NewJApiFromFile(root bytes), INCLUDEs from disk
+	Seed    uint64   `json:"seed"`    // run seed this case was generated from (provenance only)
+	Project *Project `json:"project"` // file tree, root
+	Entry   string   `json:"entry"`   // "path": kit.NewJapi(root path); "mem": kit.NewJApiFromFile(root bytes), INCLUDEs from disk
 	Faults  []Fault  `json:"faults,omitempty"`
 	Expect  *Expect  `json:"expect,omitempty"` // fault-located expectation (C07c)
 
